@@ -64,26 +64,27 @@ Lemma primary_loop_facts ttl evs : forall s, PInv ttl s ->
   (closed = true <-> (x <> XHandedOff /\ x <> XStillPrimary)) /\
   (x = XHandedOff -> In (PHandoff true true) evs) /\
   (x = XExpired -> stop <= ttl + retry_ms) /\
-  (x = XExpired -> ~ In PRenewExpired evs -> ttl < stop).
+  (x = XExpired -> ~ In PRenewExpired evs -> ~ In PHandoffLeaseGone evs -> ttl < stop).
 Proof.
   induction evs as [|e r IH]; intros s HI; cbn [primary_loop].
   - fin HI.
-  - destruct e as [| | | |c l|].
+  - destruct e as [| | | |c l| |].
     + (* renew ok *) specialize (IH {| p_since := 0; p_wait := ttl / 2 |}). cbn [In].
       destruct (primary_loop ttl _ r) as [[x closed] stop]. destruct IH as [A [B [C D]]]; [left; cbn; tauto|].
-      repeat split; try tauto; try (intros Hx Hn; apply D; [exact Hx|]; intros Hin; apply Hn; right; exact Hin).
+      repeat split; try tauto; try (intros Hx Hn Hg; apply D; [exact Hx| |]; intros Hin; [apply Hn|apply Hg]; right; exact Hin).
     + (* expired *) fin HI; try (exfalso; match goal with H : ~ In _ _ |- _ => apply H; left; reflexivity end).
     + (* renew error *) unfold retry_ms. destruct (N.ltb_spec ttl (p_since s + p_wait s + 1000)) as [Hg|Hg].
       * fin HI.
       * specialize (IH {| p_since := p_since s + p_wait s; p_wait := 1000 |}). cbn [In].
         destruct (primary_loop ttl _ r) as [[x closed] stop]. destruct IH as [A [B [C D]]]; [right; cbn; unfold retry_ms; lia|].
-        repeat split; try tauto; try (intros Hx Hn; apply D; [exact Hx|]; intros Hin; apply Hn; right; exact Hin).
+        repeat split; try tauto; try (intros Hx Hn Hg; apply D; [exact Hx| |]; intros Hin; [apply Hn|apply Hg]; right; exact Hin).
     + (* demote *) fin HI.
     + (* handoff *) destruct (c && l) eqn:E.
       * apply andb_true_iff in E. destruct E as [-> ->]. fin HI; try (left; reflexivity).
       * specialize (IH s HI). cbn [In]. destruct (primary_loop ttl s r) as [[x closed] stop]. destruct IH as [A [B [C D]]].
         repeat split; try tauto; try (intros Hx; right; apply B; exact Hx);
-          try (intros Hx Hn; apply D; [exact Hx|]; intros Hin; apply Hn; right; exact Hin).
+          try (intros Hx Hn Hg; apply D; [exact Hx| |]; intros Hin; [apply Hn|apply Hg]; right; exact Hin).
+    + (* handoff, lease gone *) fin HI; try (exfalso; match goal with H : ~ In PHandoffLeaseGone _ |- _ => apply H; left; reflexivity end).
     + (* shutdown *) fin HI.
 Qed.
 
@@ -94,8 +95,14 @@ Theorem primary_run_facts ttl evs :
   (closed = true <-> (x <> XHandedOff /\ x <> XStillPrimary)) /\
   (x = XHandedOff -> In (PHandoff true true) evs) /\
   (x = XExpired -> stop <= ttl + retry_ms) /\
-  (x = XExpired -> ~ In PRenewExpired evs -> ttl < stop).
+  (x = XExpired -> ~ In PRenewExpired evs -> ~ In PHandoffLeaseGone evs -> ttl < stop).
 Proof. unfold primary_run. apply primary_loop_facts. left. cbn. tauto. Qed.
+(* a handoff whose last renewal reports the lease gone ends the primary role at once, and the lease is destroyed *)
+Lemma handoff_lease_gone_ends_role ttl s r : primary_loop ttl s (PHandoffLeaseGone :: r) = (XExpired, true, p_since s).
+Proof. reflexivity. Qed.
+(* a handoff that does not complete leaves the loop exactly where it was: the next renewal is not postponed *)
+Lemma handoff_failed_keeps_deadline ttl s c l r : c && l = false -> primary_loop ttl s (PHandoff c l :: r) = primary_loop ttl s r.
+Proof. intros H. cbn [primary_loop]. rewrite H. reflexivity. Qed.
 (* a renewal that reports the lease gone ends the primary role at once *)
 Lemma expired_renewal_ends_role ttl s r : primary_loop ttl s (PRenewExpired :: r) = (XExpired, true, p_since s + p_wait s).
 Proof. reflexivity. Qed.
@@ -114,3 +121,14 @@ Proof.
   - apply N.eqb_eq in H2. subst. tauto.
   - tauto.
 Qed.
+
+(* after the acquisition: the node goes on as primary only of its own cluster *)
+Lemma post_acquire_own_cluster local leaser c : post_acquire local leaser = (true, Some c) ->
+  (leaser = None /\ (local = Some c \/ (local = None /\ c = 0))) \/ (leaser = Some c /\ local = Some c).
+Proof.
+  unfold post_acquire. destruct leaser as [b|]; destruct local as [a|]; cbn; intros H; inversion H; subst; try discriminate; auto.
+  right. match goal with E : (_ =? _) = true |- _ => apply N.eqb_eq in E; subst end. auto.
+Qed.
+Lemma post_acquire_foreign_refused a b : a <> b -> fst (post_acquire (Some a) (Some b)) = false.
+Proof. intros H. cbn. destruct (N.eqb_spec a b); [contradiction|reflexivity]. Qed.
+
